@@ -302,6 +302,8 @@ def directed_scripts(cls, dt):
          [rd, ['SetNFFT', 0], rd, ['SetSides', 'centerdc'], ['SetNFFT', 0], rd, ['SetNFFT', 1], ['SetSides', 'centerdc'], ['SetNFFT', 1], rd],
          [rd, ['SetSampling', D.S2], rd, ['SetSampling', D.S2], rd, ['SetScale', True], rd, ['SetScale', True], rd],
          [rd, ['SetSampling', D.S1], rd, ['SetSampling', D.S1N], rd, ['SetScale', True], rd, ['SetSampling', D.S1], rd, ['SetSampling', D.S1N], ['GetConverted', 'centerdc']],
+         # explicit computations repeated on one object, with frequency scaling on and off
+         [['SetScale', True], rd, ['Call', 0], rd, ['Call', 0], rd, ['SetScale', False], ['Call', 0], rd, ['SetScale', True], ['Call', 0], ['Call', 0], rd],
          # the caller goes on using the array it handed over (before and after the first estimate)
          [['TouchCallerArray', 0], rd, ['TouchCallerArray', 0], rd, ['SetNFFT', 33], rd,
           ['SetData', back], ['TouchCallerArray', 0], rd, ['GetConverted', 'centerdc']],
